@@ -187,24 +187,19 @@ def witness(e):
 
 
 def genuine(text, tokd):
-    """Is there an extractor of the same token type whose pattern matches the real text with group 1 at
-    exactly these offsets (real boundaries)?"""
+    """Is there an extractor of the same token type whose pattern, matched in place on the real text (real boundaries,
+    real end of text), puts group 1 at exactly these offsets? The match may start at the token or one character
+    before it (the boundary character the patterns consume)."""
     s, e = tokd["start"], tokd["end"]
-    n = len(text)
     for ex in G["by_type"].get(tokd["kind"], []):
         for pos in (s - 1, s):
             if pos < 0:
                 continue
-            for endpos in (e, e + 1):
-                if endpos > n:
+            m = ex.compiled_regex.match(text, pos)
+            if m and m.span(1) == (s, e):
+                if tokd["kind"] == "CitationToken" and bool(ex.extra.get("short")) != bool(tokd["short"]):
                     continue
-                if endpos == e and not (e == n or (e == n - 1 and text[e] == "\n")):
-                    continue  # '$' would be satisfied by endpos, not by the real end of the text
-                m = ex.compiled_regex.fullmatch(text, pos, endpos)
-                if m and m.span(1) == (s, e):
-                    if tokd["kind"] == "CitationToken" and bool(ex.extra.get("short")) != bool(tokd["short"]):
-                        continue
-                    return True
+                return True
     return False
 
 
